@@ -526,6 +526,39 @@ def selection_check(ctx, runner, sample):
     return bad
 
 
+LIB_PROBE = r"""
+import sys, os, glob
+core = sys.argv[1]
+bad = []
+for f in sorted(glob.glob(os.path.join(core, "*.py"))):
+    try:
+        compile(open(f, encoding="utf-8").read(), f, "exec")
+    except SyntaxError as e:
+        bad.append("%s:%s: %s" % (f, e.lineno, e.msg))
+sys.path.insert(0, core)
+try:
+    import _erg_std_prelude
+except Exception as e:
+    bad.append("import _erg_std_prelude: %s: %s" % (type(e).__name__, e))
+print("\n".join(bad))
+"""
+
+
+def runtime_library_check(ctx, runner):
+    """the runtime library (lib/core/*.py) must be loadable by every supported interpreter: syntax of every file, import
+    of the prelude module"""
+    core = os.path.join(REPO, "crates", "erg_compiler", "lib", "core")
+    bad = []
+    for v in VERSIONS:
+        p = sh([PY_VERSIONS[v], "-c", LIB_PROBE, core], timeout=300)
+        out = [l for l in p.stdout.splitlines() if l.strip()]
+        if p.returncode != 0:
+            out.append("probe failed: " + p.stderr[-400:])
+        bad += [(v, l) for l in out]
+    ctx.cov["runtime_library"] = {"interpreters": len(VERSIONS), "files": len([f for f in os.listdir(core) if f.endswith(".py")]), "problems": len(bad)}
+    return bad
+
+
 def magic_cross_check(ctx, runner, cases):
     """--py-command P and --py-magic-num <magic of P> must select the same target: identical code objects"""
     todo = [c for c in cases if c.t[DEFAULT].accepted and c.verdict and c.verdict[0]][:ctx.scale(6, 40)]
@@ -601,6 +634,7 @@ def run_with(ctx, runner, proof):
     sample = [c for c in cases if all(c.t[v].accepted for v in VERSIONS) and c.verdict and c.verdict[0]][:ctx.scale(4, 40)]
     sel_bad = selection_check(ctx, runner, sample)
     magic_bad = magic_cross_check(ctx, runner, cases)
+    lib_bad = runtime_library_check(ctx, runner)
     # ---- bytecode tie per version
     mism, stats = bytecode_tie(ctx, runner, cases)
     ctx.cov["bytecode_tie"] = stats
@@ -645,6 +679,9 @@ def run_with(ctx, runner, proof):
     for b in sel_bad[:2]:
         ctx.violation("failing-input", "`%s` does not execute the bytecode with the selected interpreter / as that interpreter does: %s" % (
             b["command_line"], {k: b[k] for k in ("stdout", "exit", "stderr") if k in b}), case=b, impl=b, judge=False)
+    for v, l in lib_bad[:2]:
+        ctx.violation("failing-input", "the runtime library is not loadable by python%s: %s" % (v, l),
+                      case={"kind": "runtime-library", "version": v, "problem": l}, impl={"problem": l}, judge=False)
     for c, v, what in magic_bad[:1]:
         ctx.violation("failing-input", what, case=c.as_json(versions=[v]), impl={v: c.t[v].summary()}, judge=False)
     # ---- known findings
@@ -668,7 +705,7 @@ def run_with(ctx, runner, proof):
                          "version difference; first: %s)" % (len(common), first[:300]))
         ctx.cov["bytecode_tie"]["programs differing for the default target too (C01's tie)"] = len(common)
     mism = [m for m in mism if id(m[0]) not in common]
-    anything = failing or oracle_diff or sel_bad or magic_bad
+    anything = failing or oracle_diff or sel_bad or magic_bad or lib_bad
     if (mism or tab_bad or not proof.ok) and not anything:
         what, first = [], None
         if not proof.ok:
@@ -702,6 +739,12 @@ def replay(ctx, path):
                 print("judge_interpreter(selected 3.%d, reported %s):" % (MINOR[v], reported), ok)
                 if not ok:
                     ctx.violation("failing-input", "erg run does not use the selected interpreter", case=case, impl={"obs": out}, judge=False)
+            return
+        if case.get("kind") == "runtime-library":
+            bad = runtime_library_check(ctx, runner)
+            print("runtime library problems:", bad)
+            for v, l in bad[:2]:
+                ctx.violation("failing-input", "the runtime library is not loadable by python%s: %s" % (v, l), case=case, impl={"problem": l}, judge=False)
             return
         if "sx" not in case:
             print("replay file carries no program"); return
